@@ -232,6 +232,14 @@ func (c *Ctx) BFS(o BFSOpts, onViolation func(hist []string, v BFSViolation)) {
 					return
 				}
 				if seen[st.Key] {
+					// a violation of a per-step rule belongs to the transition, not to the state
+					// it leads to: report it also when that state was reached before by a
+					// history on which the step was harmless
+					for _, v := range st.Violations {
+						if v.Class == "step" {
+							onViolation(h, v)
+						}
+					}
 					continue
 				}
 				seen[st.Key] = true
